@@ -9,7 +9,7 @@ TARGETS = sorted(c.__name__ for c in models.TREE_MODELS.values())
 GATES = {
     'quick': {'evaluations': 6000, 'accepted_File': 1200, 'targets_accepted_ge5': 33, 'layout_comment_before_dedent': 30,
               'layout_ws_only_line': 100, 'layout_no_final_newline': 200, 'layout_crlf': 300},
-    'thorough': {'evaluations': 150000, 'accepted_File': 30000, 'targets_accepted_ge5': 35},
+    'thorough': {'evaluations': 150000, 'accepted_File': 30000, 'targets_accepted_ge5': 33},
 }
 RULE = ('case = one generated document (normal or hostile profile; thorough adds 50..400-directive files) parsed as File with '
         'auto_claim_comments True and False, then the printed text of every sub-model is offered to parse(text, type(sub)) in both modes. '
